@@ -9,10 +9,12 @@ Property theorems only (lemmas: Lemmas/PipelineC08.lean).  The stages compose as
   markers (`ws_filter_spec`, `trim_*_exact`), comments replaced by an empty text
   (`comments_produce_nothing`), raw bodies verbatim (`raw_verbatim`);
 * parser: every non-empty Content token becomes a `Node.content` with the same text, in order,
-  empty ones are dropped (parser.rs:1661-1666) — the model's `untilLoop`; as a universal statement
-  this is the named Prop `content_tokens_are_ast_texts_full` below (NOT proved: it needs a
-  token-tracking walk of the parser model; cpipe compares the AST of every case with the real
-  parser's, stage "parser (AST)");
+  empty ones are dropped (parser.rs:1661-1666) — PROVED by bG1_parser, Props/C08Parser.lean
+  `content_tokens_are_ast_texts` (with the fully deep walk `Node.allTextsList`); the statement
+  first written here, `content_tokens_are_ast_texts_full` below, used a walk that is too shallow
+  and is FALSE (refuted there; kept only because the refutation refers to it);
+* all stages composed, source bytes to stored chunks: Props/C08E2E.lean
+  `source_text_reaches_chunks`;
 * compiler + optimiser + stored chunk: `text_reaches_output_verbatim` — PROVED for every parsed
   template: the `WriteText` payloads of every stored chunk are exactly the texts of the content
   nodes compiled into that chunk, in order;
@@ -34,7 +36,8 @@ def contentPayloads : List Tok → List String
   | _ :: rest => contentPayloads rest
 
 mutual
-/-- every literal text of a node list in source order, block bodies included -/
+/-- (too shallow, see `content_tokens_are_ast_texts_full`) the literal texts of a node list, block
+bodies included only where the block is an element of the list -/
 def deepTexts : List Node → List String
   | [] => []
   | n :: rest => deepText n ++ deepTexts rest
@@ -43,9 +46,12 @@ def deepText : Node → List String
   | n => nodeTexts n
 end
 
-/-- The parser link at full strength (for a template without component definitions, whose texts
-are moved out of the node list): the texts of the AST, in source order, are exactly the non-empty
-Content tokens.  NOT proved (see the header); checked on every cpipe case by the AST stage diff. -/
+/-- REFUTED — do not use.  The parser link as first stated, with the walk `deepTexts`, which
+descends into a block only where the block is an element of the list it walks: FALSE
+(`C08Parser.not_content_tokens_are_ast_texts_full`, `C08E2E.shallow_walk_statement_is_false`; a
+block inside a filter section / set block / component-call body is accepted by the parser).  The
+true statement, proved, is `C08Parser.content_tokens_are_ast_texts` (walk `Node.allTextsList`);
+the composition with the compiler is `C08E2E.chunk_texts_are_ast_texts`. -/
 def content_tokens_are_ast_texts_full : Prop :=
   ∀ (maxDepth : Nat) (toks : List Tok) (t : Template) (s : TParser.TState),
     TParser.shaped .tpl toks = true → TParser.parse maxDepth toks = .ok t s →
